@@ -160,6 +160,13 @@ Fixpoint eval (s : state) (e : expr) {struct e} : state * (val + val) :=
     end
   end.
 
+(* for-in over a MiniJS value: every value of this language is a primitive without enumerable properties
+   (for (x in 5), for (x in undefined), ...): the subject is evaluated, nothing is visited *)
+Definition enum (s : state) (e : expr) : state * (list (list val) + val) :=
+  match eval s e with (s1, inl _) => (s1, inl []) | (s1, inr x) => (s1, inr x) end.
+Definition live (s : state) (k : val) : bool := true.
+Definition bind (s : state) (t : expr) (k : val) : state * option val := (s, None).
+
 Definition recatch (v : val) : val := match v with VHalt => VHaltCaught | _ => v end.
 
 (* ---- whole programs ---- *)
@@ -193,10 +200,10 @@ Definition outcome_s (r : sres val) : outcome :=
   end.
 
 Definition run_o (fuel : nat) (declared : list nat) (halt : Z) (p : prog) : state * list label * outcome :=
-  match exec_o eval truthy tick recatch val_seq fuel (init_state declared halt) [] (SBlock p) with
+  match exec_o eval truthy tick recatch val_seq enum live bind fuel (init_state declared halt) [] (SBlock p) with
   | (s, L, r) => (s, L, outcome_o r)
   end.
 Definition run_s (fuel : nat) (declared : list nat) (halt : Z) (p : prog) : state * outcome :=
-  match exec_s eval truthy tick recatch val_seq fuel (init_state declared halt) [] (SBlock p) with
+  match exec_s eval truthy tick recatch val_seq enum live bind fuel (init_state declared halt) [] (SBlock p) with
   | (s, r) => (s, outcome_s r)
   end.
